@@ -9,12 +9,12 @@ if len(sys.argv) > 2:
     notes = json.load(open(sys.argv[2]))
 for blk in log.split("===== ")[1:]:
     head = blk.split("\n")[0]
-    m = re.match(r"(C\d+) seed (r[2345]-)?(\d) \((\S+)\)", head)
+    m = re.match(r"(C\d+) seed (r[23456]-)?(\d) \((\S+)\)", head)
     if not m:
         continue
     pid, r2, k, demo = m.group(1), m.group(2) or "", m.group(3), m.group(4)
     src = f"/tmp/seed{r2[1]}/{pid}/out/{k}" if r2 else f"/tmp/seed/{pid}/out/{k}"
-    benign = (r2 in ("r3-", "r4-", "r5-") and k == "3")
+    benign = (r2 in ("r3-", "r4-", "r5-", "r6-") and k == "3")
     if not os.path.isdir(src):
         continue
     dst = os.path.join(ROOT, "seeded", f"{pid}-{r2}{k}")
@@ -49,6 +49,7 @@ for blk in log.split("===== ")[1:]:
         "origin": "fresh sub-agent given only the property text and a scratch worktree of /repo" +
                   (" (second round: asked for blind spots of an unseen checker - unusual input classes, file-system states, rare entry points, order effects)" if r2 == "r2-" else "") +
                   (" (third round: told the checker is hardened; asked for longer histories, format-version interplay, state after errors, item counts, cargo features, third-party data, trait impls; k=3 is a BENIGN change that must not be reported)" if r2 == "r3-" else "") +
+                  (" (sixth round: asked for two cooperating sites, multi-step histories, faults / errors at a particular point and state after a failed operation, data-dependent fast paths, interactions of two features; k=3 is a BENIGN change that must not be reported)" if r2 == "r6-" else "") +
                   (" (fourth round: told the checker was hardened in three rounds; asked for the glue - option structs, trait impls that must agree, caching/laziness/interning, early exits, iterator adaptor slips, numeric casts, path handling, error mapping; k=3 is a BENIGN change that must not be reported)" if r2 == "r4-" else ""),
         "confirmed": f"tools/seedtest.sh seeded/{key} {demo} {pid}: demo passes without and fails with the change"
                      f" ({'confirmed' if demo_fails else 'NOT confirmed'}); cargo test --offline green with the change",
